@@ -439,6 +439,37 @@ func c14_1(c *core.Ctx, p *core.Prog) {
 				}
 			}
 			if !same {
+				// the test may sit in a predicate helper of the allocator that is handed the amount (`l.exceedsLimit(change)`)
+				core.EachInstr(fn, func(i ssa.Instruction) {
+					cl, ok := i.(*ssa.Call)
+					if !ok {
+						return
+					}
+					h := cl.Call.StaticCallee()
+					if h == nil || len(h.Blocks) == 0 || h.Signature.Recv() == nil || core.NamedOf(h.Signature.Recv().Type()) != a.typ {
+						return
+					}
+					for k, arg := range cl.Call.Args {
+						if core.StripConv(arg) != core.StripConv(b.Y) || k >= len(h.Params) {
+							continue
+						}
+						core.EachInstr(h, func(j ssa.Instruction) {
+							sum, ok := j.(*ssa.BinOp)
+							if !ok || sum.Op != token.ADD {
+								return
+							}
+							if (sum.Y == ssa.Value(h.Params[k]) && isFieldLoad(sum.X, a.inuse)) || (sum.X == ssa.Value(h.Params[k]) && isFieldLoad(sum.Y, a.inuse)) {
+								for _, r := range core.Referrers(sum) {
+									if cmp, ok := r.(*ssa.BinOp); ok && (cmp.Op == token.GTR || cmp.Op == token.LEQ || cmp.Op == token.LSS || cmp.Op == token.GEQ) {
+										same = true
+									}
+								}
+							}
+						})
+					}
+				})
+			}
+			if !same {
 				msgs = append(msgs, "the amount added to the in-use counter is not the amount that was tested against the limit")
 			}
 		}
